@@ -2,24 +2,36 @@
   Model of pypyr's command steps (C17).
 
   Mirrors, as the code is now:
-    * `pypyr.subproc.Command.run/_run`, `pypyr.steps.dsl.cmd.CmdStep.run_step`
-      (steps `cmd`, `shell`): the serial loop.
-    * `pypyr.aio.subproc.Command.run/_run/_spawn/parse_results`,
-      `pypyr.aio.subproc.Commands.run/_run`, `pypyr.steps.dsl.cmdasync.AsyncCmdStep.run_step`
-      (steps `cmds`, `shells`): concurrent lanes, serial sub-lists, aggregation.
+    * `pypyr.steps.dsl.cmd.CmdStep.__init__ / create_command`, `pypyr.steps.dsl.cmdasync.AsyncCmdStep.
+      __init__ / create_command`, `pypyr.subproc.Command.__init__`, `pypyr.aio.subproc.Command.__init__`:
+      the map from the step's configuration (str | map | list | nested list; `run`, `save`, `cwd`, `bytes`,
+      `encoding`, `stdout`, `stderr`, `append`, `shell`) to the list of `Command` objects, incl. the
+      `ContextError` branches — §0 `parseCmdConfig`.
+    * `pypyr.subproc.Command.run/_run/output_handles`, `CmdStep.run_step` (steps `cmd`, `shell`): the
+      serial loop — §1.
+    * `pypyr.aio.subproc.Command.run/_run/_spawn/parse_results/output_handles`,
+      `pypyr.aio.subproc.Commands.run/_run`, `AsyncCmdStep.run_step` (steps `cmds`, `shells`): concurrent
+      lanes, serial sub-lists, aggregation — §2.
 
-  A command is *scripted*: it has an identity and one of three kinds of outcome:
+  A command is *scripted*: it has an identity and one of these kinds of outcome:
     * it cannot be started at all (`spawn = some k`): `shlex.split` / `subprocess.run` /
       `asyncio.create_subprocess_*` raises (`FileNotFoundError`: no such executable or no such `cwd`;
       `PermissionError`: file not executable; `ValueError`: the instruction cannot be split into
       arguments) — no process exists, nothing is written;
     * it runs and exits with status `code : Int`: `0`, a positive exit code, or a **negative** one
-      (`-N`: killed by signal `N`), having written `out` / `err`.
+      (`-N`: killed by signal `N`), having written the bytes `out` / `err` (shown as text: one character
+      per byte, latin-1);
+    * it runs and exits with status `code`, but what it wrote **cannot be decoded** under the encoding of
+      the command it belongs to (`decodeFails`): where the code decodes captured output (`save` in text
+      mode) the decoding raises `UnicodeDecodeError` *after* the process has run and *before* a result
+      exists — neither an exit status nor a spawn error.
+  The output handles of a command (`stdout:` / `stderr:` files) are scripted too: opening them works, or
+  raises (`openErr`: the path is a directory / its parent is a file).
   The operating system's scheduling of the concurrent steps is an explicit input: a *schedule*
   (a list of lane indices; entry `i` means "the process lane `i` is currently running exits now").
 
-  Not modelled: output redirection to files, encodings other than ASCII text; *where* a spawn error
-  comes from (executable, cwd, quoting) is the harness's business — the model only needs its kind.
+  Not modelled: *where* a spawn error comes from (executable, cwd, quoting) is the harness's business —
+  the model only needs its kind; `\r` in text output (universal-newline translation of `subprocess`).
 
   No imports beyond `Val`: the driver must link.
 -/
@@ -34,23 +46,37 @@ inductive SpawnKind where
   | badArgs       -- ValueError out of shlex.split (no closing quotation)
   deriving Repr, DecidableEq, Inhabited
 
+/-- Why an output file could not be opened (`output_handles`). -/
+inductive OpenKind where
+  | isDir         -- IsADirectoryError out of `open(path, 'wb')`
+  | parentFile    -- FileExistsError out of `Path(path).parent.mkdir(parents=True, exist_ok=True)`
+  deriving Repr, DecidableEq, Inhabited
+
 /-- One scripted instruction (one `subprocess.run` / `create_subprocess_*`).
-    `code`, `out`, `err` mean something only when `spawn = none`. -/
+    `code`, `out`, `err`, `decodeFails` mean something only when `spawn = none`.
+    `decodeFails`: the bytes written are not valid text under the encoding of the command this
+    instruction belongs to. -/
 structure Proc where
   id    : Nat
   spawn : Option SpawnKind
   code  : Int
   out   : String
   err   : String
+  decodeFails : Bool
   deriving Repr, DecidableEq, Inhabited
-
-/-- The serial loop this instruction belongs to does not go on after it: it could not be started,
-    or its exit status is non-zero (`if result.returncode:` / `check_returncode()` — positive **or
-    negative**). -/
-def Proc.stops (p : Proc) : Bool := p.spawn.isSome || p.code != 0
 
 /-- A process existed. -/
 def Proc.ran (p : Proc) : Bool := p.spawn.isNone
+
+/-- The process ran, and the loop it belongs to does not go on after it: its exit status is non-zero
+    (`if result.returncode:` / `check_returncode()` — positive **or negative**), or — where the
+    command decodes what it captured (`dec`) — its output cannot be decoded (the exception leaves
+    the loop). -/
+def Proc.halts (dec : Bool) (p : Proc) : Bool := p.code != 0 || (dec && p.decodeFails)
+
+/-- The serial loop this instruction belongs to does not go on after it: it could not be started,
+    or it `halts`. `dec`: the command it belongs to decodes captured output. -/
+def Proc.stops (dec : Bool) (p : Proc) : Bool := p.spawn.isSome || p.halts dec
 
 /-- What `SubprocessResult.stdout` / `.stderr` can hold. -/
 inductive Out where
@@ -70,42 +96,134 @@ structure Result where
 /-- The error a failed command gives rise to.
     `exit`: `subprocess.CalledProcessError` (serial steps) or `pypyr.errors.SubprocessError` (inside the
     `MultiError` of the concurrent steps); both carry the command and its return code.
-    `spawn`: the `OSError` / `ValueError` of a command that could not be started, as raised. -/
+    `spawn`: the `OSError` / `ValueError` of a command that could not be started, as raised.
+    `decode`: the `UnicodeDecodeError` raised when the captured output of a command that *ran* is decoded
+    (it carries neither the command nor its return code).
+    `openOut`: the `OSError` of an output file that cannot be opened. -/
 inductive CmdErr where
   | exit (id : Nat) (code : Int)
   | spawn (id : Nat) (kind : SpawnKind)
+  | decode (id : Nat)
+  | openOut (path : String) (kind : OpenKind)
   deriving Repr, DecidableEq, Inhabited
 
-/-- The error of an instruction that `stops`. -/
-def Proc.error (p : Proc) : CmdErr :=
+/-- The error of an instruction that `stops`: the spawn error; else the decode error (it is raised
+    before the return code is looked at); else the exit status. -/
+def Proc.error (dec : Bool) (p : Proc) : CmdErr :=
   match p.spawn with
   | some k => .spawn p.id k
-  | none => .exit p.id p.code
+  | none => if dec && p.decodeFails then .decode p.id else .exit p.id p.code
 
 def isWs (c : Char) : Bool :=
   c == ' ' || c == '\n' || c == '\t' || c == '\r' || c == '\x0b' || c == '\x0c'
 
-/-- `str.rstrip()` on ASCII text. -/
+/-- `str.rstrip()` on text without the non-ASCII white space characters. -/
 def rstrip (s : String) : String :=
   String.ofList (s.toList.reverse.dropWhile isWs).reverse
 
-/-! ## Serial steps: `cmd`, `shell` -/
+/-! ## Output handles -/
+
+/-- What `stdout:` / `stderr:` of a command says (after `output_handles` has looked at it). -/
+inductive Target where
+  | inherit                 -- `None` / falsy: the parent's handle
+  | devnull                 -- '/dev/null' → `subprocess.DEVNULL`
+  | toStdout                -- stderr only: '/dev/stdout' → `subprocess.STDOUT`
+  | file (path : String)    -- by elimination a path: opened 'wb' / 'ab'
+  deriving Repr, DecidableEq, Inhabited
+
+/-- The output settings of one `Command`, and the scripted outcome of opening them:
+    `openErr = some (isStderr, k)`: opening that handle raises. -/
+structure Redirect where
+  stdout  : Target := .inherit
+  stderr  : Target := .inherit
+  append  : Bool := false
+  openErr : Option (Bool × OpenKind) := none
+  deriving Repr, DecidableEq, Inhabited
+
+/-- The exception out of `with self.output_handles()`, if any (only a file can fail to open). -/
+def Redirect.openError (r : Redirect) : Option CmdErr :=
+  match r.openErr with
+  | none => none
+  | some (false, k) => match r.stdout with
+    | .file p => some (.openOut p k)
+    | _ => none
+  | some (true, k) => match r.stderr with
+    | .file p => some (.openOut p k)
+    | _ => none
+
+/-- File contents by path (absent: no such file). -/
+abbrev Fs := List (String × String)
+
+def Fs.get (fs : Fs) (p : String) : Option String :=
+  match fs with
+  | [] => none
+  | (q, s) :: rest => if q = p then some s else Fs.get rest p
+
+def Fs.set (fs : Fs) (p s : String) : Fs :=
+  match fs with
+  | [] => [(p, s)]
+  | (q, t) :: rest => if q = p then (p, s) :: rest else (q, t) :: Fs.set rest p s
+
+/-- `open(path, 'ab' if append else 'wb')`: created if missing, emptied unless appending. -/
+def Fs.openW (fs : Fs) (append : Bool) (p : String) : Fs :=
+  if append then (match fs.get p with | some _ => fs | none => fs.set p "") else fs.set p ""
+
+def Fs.write (fs : Fs) (p s : String) : Fs := fs.set p ((fs.get p).getD "" ++ s)
+
+/-- What entering `output_handles` does to the files: stdout is opened first, then stderr; when
+    stdout cannot be opened nothing has happened, when stderr cannot be opened stdout *has* been
+    opened (created / emptied) and is closed again. -/
+def Redirect.openFs (r : Redirect) (fs : Fs) : Fs :=
+  match r.openErr with
+  | some (false, _) => fs
+  | oe =>
+    let fs1 := match r.stdout with
+      | .file p => fs.openW r.append p
+      | _ => fs
+    match oe with
+    | some _ => fs1
+    | none => match r.stderr with
+      | .file p => fs1.openW r.append p
+      | _ => fs1
+
+/-- A process that ran writes `out`, then `err`, to its handles. -/
+def Redirect.writeProc (r : Redirect) (p : Proc) (fs : Fs) : Fs :=
+  let fs1 := match r.stdout with
+    | .file q => fs.write q p.out
+    | _ => fs
+  match r.stderr, r.stdout with
+  | .file q, _ => fs1.write q p.err
+  | .toStdout, .file q => fs1.write q p.err
+  | _, _ => fs1
+
+/-! ## 1. Serial steps: `cmd`, `shell` -/
 
 /-- `pypyr.subproc.Command`: `cmd` is one instruction or a list of them; `save`/`text`
-    as computed by `CmdStep.create_command` (`is_text = not bytes if save else False`). -/
+    as computed by `CmdStep.create_command` (`is_text = not bytes if save else False`); `enc`: an
+    encoding is in force (`encoding:` truthy, or `config.default_cmd_encoding` set) — `subprocess.run(
+    encoding=…)` then works in text mode **even when `text=False`** (`bytes: True`); `redir`: its
+    output handles (`Command.__init__` refuses them together with `save`). -/
 structure SCommand where
-  run  : List Proc
-  save : Bool
-  text : Bool
+  run   : List Proc
+  save  : Bool
+  text  : Bool
+  enc   : Bool := false
+  redir : Redirect := {}
   deriving Repr, DecidableEq, Inhabited
+
+/-- Does `subprocess.run` decode what it captured? (`Popen.text_mode = encoding or errors or text`). -/
+def syncDec (save text enc : Bool) : Bool := save && (text || enc)
+
+def SCommand.dec (c : SCommand) : Bool := syncDec c.save c.text c.enc
 
 /-- The `SubprocessResult` built in `pypyr.subproc.Command._run` (save branch):
     `capture_output=True`; in text mode a non-empty stream is `rstrip`ped, an empty one stays `''`;
-    in bytes mode the raw bytes. -/
-def mkResultSync (text : Bool) (p : Proc) : Result :=
+    in bytes mode with an encoding the decoded text as it is; in bytes mode the raw bytes. -/
+def mkResultSync (text enc : Bool) (p : Proc) : Result :=
   if text then
     ⟨p.id, p.code, .text (if p.out = "" then "" else rstrip p.out),
                    .text (if p.err = "" then "" else rstrip p.err)⟩
+  else if enc then ⟨p.id, p.code, .text p.out, .text p.err⟩
   else ⟨p.id, p.code, .bytes p.out, .bytes p.err⟩
 
 /-- Accumulated effect of running some instructions serially. -/
@@ -118,21 +236,31 @@ structure Acc where
 /-- `for c in cmd: self._run(c)` of `pypyr.subproc.Command.run`, with `_run` inlined:
     `shlex.split` / `subprocess.run` raises when the instruction cannot be started (nothing started,
     nothing appended, the exception leaves the loop); otherwise the process *starts* and runs to its
-    end, with `save` the result is appended **before** `check_returncode()`, which raises on a
+    end; with `save`, `subprocess.run` decodes what it captured when in text mode — **that raises
+    `UnicodeDecodeError` for undecodable output: the process ran, nothing is appended, the exception
+    leaves the loop** —, the result is appended **before** `check_returncode()`, which raises on a
     non-zero status — positive or negative — (and leaves the loop). -/
-def runProcs (save text : Bool) : List Proc → Acc
+def runProcs (save text enc : Bool) : List Proc → Acc
   | [] => {}
   | p :: ps =>
     match p.spawn with
     | some k => { started := [], results := [], err := some (.spawn p.id k) }
     | none =>
-      let r := if save then [mkResultSync text p] else []
-      if p.code ≠ 0 then { started := [p.id], results := r, err := some (.exit p.id p.code) }
+      if syncDec save text enc && p.decodeFails then
+        { started := [p.id], results := [], err := some (.decode p.id) }
       else
-        let rest := runProcs save text ps
-        { started := p.id :: rest.started, results := r ++ rest.results, err := rest.err }
+        let r := if save then [mkResultSync text enc p] else []
+        if p.code ≠ 0 then { started := [p.id], results := r, err := some (.exit p.id p.code) }
+        else
+          let rest := runProcs save text enc ps
+          { started := p.id :: rest.started, results := r ++ rest.results, err := rest.err }
 
-def SCommand.exec (c : SCommand) : Acc := runProcs c.save c.text c.run
+/-- `Command.run`: `with self.output_handles() as (stdout, stderr):` — an output file that cannot be
+    opened raises before anything is started — then the loop. -/
+def SCommand.exec (c : SCommand) : Acc :=
+  match c.redir.openError with
+  | some e => { started := [], results := [], err := some e }
+  | none => runProcs c.save c.text c.enc c.run
 
 /-- The loop of `CmdStep.run_step`: `for cmd in self.commands: try: cmd.run()
     finally: results.extend(cmd.results)` — *any* exception leaves the loop after the `finally`. -/
@@ -146,8 +274,9 @@ def runCommands : List SCommand → Acc
       let rest := runCommands cs
       { started := a.started ++ rest.started, results := a.results ++ rest.results, err := rest.err }
 
-/-- What `context['cmdOut']` is set to by the outer `finally` of `CmdStep.run_step`:
-    nothing when there are no results, the object itself for one result, else the list. -/
+/-- What the outer `finally` of `CmdStep.run_step` writes to `context['cmdOut']`:
+    **nothing** when there are no results (`if results:`), the object itself for one result, else
+    the list. -/
 inductive CmdOut where
   | unset
   | single (r : Result)
@@ -171,48 +300,96 @@ def runSerial (cs : List SCommand) : SerialObs :=
   let a := runCommands cs
   { started := a.started, err := a.err, results := a.results, cmdOut := cmdOutOf a.results }
 
+/-- `context['cmdOut']` once the step is over. -/
+inductive CtxCmdOut where
+  | prior (v : Option Val)      -- what the context held before the step (`none`: no such key): not written
+  | single (r : Result)
+  | many (rs : List Result)
+  deriving Repr, DecidableEq, Inhabited
+
+/-- `context['cmdOut']` after `CmdStep.run_step` on a context whose `cmdOut` was `prev`: the step writes
+    only `if results` — otherwise **what an earlier step left there survives**. -/
+def cmdOutAfter (prev : Option Val) (cs : List SCommand) : CtxCmdOut :=
+  match (runSerial cs).cmdOut with
+  | .unset => .prior prev
+  | .single r => .single r
+  | .many rs => .many rs
+
 /-! ### Declarative vocabulary for the serial theorems -/
 
-/-- An instruction together with the `save`/`text` setting of the command it belongs to. -/
+/-- An instruction together with the settings of the command it belongs to. -/
 structure Decl where
   proc : Proc
   save : Bool
   text : Bool
+  enc  : Bool
   deriving Repr, DecidableEq, Inhabited
+
+/-- The command of this instruction decodes what it captures. -/
+def Decl.dec (d : Decl) : Bool := syncDec d.save d.text d.enc
+
+/-- The output of this instruction is captured, decoded, and cannot be. -/
+def Decl.undec (d : Decl) : Bool := d.dec && d.proc.decodeFails
+
+def Decl.stops (d : Decl) : Bool := d.proc.stops d.dec
+
+def Decl.error (d : Decl) : CmdErr := d.proc.error d.dec
 
 /-- All instructions of the step in declaration order. -/
 def declsOf : List SCommand → List Decl
   | [] => []
-  | c :: cs => c.run.map (fun p => ⟨p, c.save, c.text⟩) ++ declsOf cs
+  | c :: cs => c.run.map (fun p => ⟨p, c.save, c.text, c.enc⟩) ++ declsOf cs
 
 /-- The instructions *attempted*: declaration prefix up to **and including** the first one that
-    `stops` (non-zero exit status, or cannot be started). -/
-def takeThrough : List Proc → List Proc
+    `stops` (non-zero exit status, undecodable captured output, or cannot be started). -/
+def takeThrough (dec : Bool) : List Proc → List Proc
   | [] => []
-  | p :: ps => if p.stops then [p] else p :: takeThrough ps
+  | p :: ps => if p.stops dec then [p] else p :: takeThrough dec ps
 
 /-- The same on declarations. -/
 def takeThroughD : List Decl → List Decl
   | [] => []
-  | d :: ds => if d.proc.stops then [d] else d :: takeThroughD ds
+  | d :: ds => if d.stops then [d] else d :: takeThroughD ds
 
 /-- The declarations whose process existed: the attempted ones that could be started
     (only the last attempted one can be unstartable). -/
 def ranD (ds : List Decl) : List Decl := (takeThroughD ds).filter (·.proc.ran)
 
 /-- The instructions of a lane whose process existed. -/
-def ranP (ps : List Proc) : List Proc := (takeThrough ps).filter Proc.ran
+def ranP (dec : Bool) (ps : List Proc) : List Proc := (takeThrough dec ps).filter Proc.ran
 
 /-- The error of the first instruction that `stops`. -/
-def firstFail : List Proc → Option CmdErr
+def firstFail (dec : Bool) : List Proc → Option CmdErr
   | [] => none
-  | p :: ps => if p.stops then some p.error else firstFail ps
+  | p :: ps => if p.stops dec then some (p.error dec) else firstFail dec ps
 
-/-! ## Concurrent steps: `cmds`, `shells` -/
+/-- The first command whose output handles cannot be opened, with the commands before it. -/
+def splitAtOpenFail : List SCommand → List SCommand × Option (CmdErr × List SCommand)
+  | [] => ([], none)
+  | c :: cs =>
+    match c.redir.openError with
+    | some e => ([], some (e, cs))
+    | none => let r := splitAtOpenFail cs; (c :: r.1, r.2)
+
+/-- The files once the serial step is over: every command opens its handles (in turn), the processes
+    that existed write to them; the loop ends with the first command that fails. -/
+def filesSerial : List SCommand → Fs → Fs
+  | [], fs => fs
+  | c :: cs, fs =>
+    match c.redir.openError with
+    | some _ => c.redir.openFs fs
+    | none =>
+      let fs1 := (ranP c.dec c.run).foldl (fun f p => c.redir.writeProc p f) (c.redir.openFs fs)
+      match c.exec.err with
+      | some _ => fs1
+      | none => filesSerial cs fs1
+
+/-! ## 2. Concurrent steps: `cmds`, `shells` -/
 
 /-- One element of a `run:` list of `pypyr.aio.subproc.Command`: an instruction, or a
     sub-list that `_run` executes serially (breaking at the first non-zero status; an exception out
-    of `_spawn` is appended to the sub-list's results and ends it). -/
+    of `_spawn` — the command cannot be started, **or its output cannot be decoded** — is appended to
+    the sub-list's results and ends it). -/
 inductive Entry where
   | one (p : Proc)
   | serial (ps : List Proc)
@@ -226,10 +403,14 @@ inductive ARun where
   deriving Repr, DecidableEq, Inhabited
 
 structure ACommand where
-  run  : ARun
-  save : Bool
-  text : Bool
+  run   : ARun
+  save  : Bool
+  text  : Bool
+  redir : Redirect := {}
   deriving Repr, DecidableEq, Inhabited
+
+/-- `_spawn` decodes only `if self.is_save: if self.is_text:` (an `encoding` alone does not). -/
+def ACommand.dec (c : ACommand) : Bool := c.save && c.text
 
 /-- The `SubprocessResult` built in `pypyr.aio.subproc.Command._spawn`: streams are piped only
     with `save` (otherwise `communicate()` gives `None`); with `save` and text a **non-empty**
@@ -244,40 +425,43 @@ def mkResultAsync (save text : Bool) (p : Proc) : Result :=
 
 /-- A lane: one unit of concurrency (a coroutine `Command._run(c)`): the instructions dealt with
     (the processes that finished and, last, the one that could not be started), the process running,
-    the instructions not reached. Invariant of every reachable lane: the running one is startable. -/
+    the instructions not reached; `dec`: its command decodes captured output.
+    Invariant of every reachable lane: the running one is startable (`Lane.wf`). -/
 structure Lane where
   done : List Proc
   cur  : Option Proc
   todo : List Proc
+  dec  : Bool
   deriving Repr, DecidableEq, Inhabited
 
 /-- `await self._spawn(next instruction)`: when it cannot be started the exception ends the coroutine
     (`results.append(ex)` in a sub-list; `return_exceptions=True` / `result = ex` otherwise) —
     recorded in `done`, nothing after it is reached; otherwise it is now running. -/
-def launch (done : List Proc) : List Proc → Lane
-  | [] => ⟨done, none, []⟩
+def launch (dec : Bool) (done : List Proc) : List Proc → Lane
+  | [] => ⟨done, none, [], dec⟩
   | q :: qs =>
     match q.spawn with
-    | some _ => ⟨done ++ [q], none, qs⟩
-    | none => ⟨done, some q, qs⟩
+    | some _ => ⟨done ++ [q], none, qs, dec⟩
+    | none => ⟨done, some q, qs, dec⟩
 
 /-- A coroutine at its first suspension point: the first process is running (if it could be started). -/
-def Lane.start (ps : List Proc) : Lane := launch [] ps
+def Lane.start (dec : Bool) (ps : List Proc) : Lane := launch dec [] ps
 
 inductive Event where
   | start (id : Nat)
   | fin (id : Nat)
   deriving Repr, DecidableEq, Inhabited
 
-/-- The running process of the lane exits: `results.append(result)`, then
+/-- The running process of the lane exits: `_spawn` decodes its output (**raising** when it cannot be
+    decoded: the coroutine / sub-list ends with that exception), `results.append(result)`, then
     `if result.returncode: break` (any non-zero status, negative included), else the next
     instruction of the sub-list is spawned. -/
 def Lane.complete (l : Lane) : Lane :=
   match l.cur with
   | none => l
   | some p =>
-    if p.code ≠ 0 then ⟨l.done ++ [p], none, l.todo⟩
-    else launch (l.done ++ [p]) l.todo
+    if p.halts l.dec then ⟨l.done ++ [p], none, l.todo, l.dec⟩
+    else launch l.dec (l.done ++ [p]) l.todo
 
 /-- Start event of the next instruction, if it can be started (an unstartable one leaves no trace). -/
 def launchEvents : List Proc → List Event
@@ -289,31 +473,40 @@ def Lane.completeEvents (l : Lane) : List Event :=
   match l.cur with
   | none => []
   | some p =>
-    if p.code ≠ 0 then [.fin p.id]
+    if p.halts l.dec then [.fin p.id]
     else .fin p.id :: launchEvents l.todo
 
 /-- Let the lane run to its end (every running process exits as soon as it is running). -/
-def drainFrom (done : List Proc) : Option Proc → List Proc → Lane
-  | none, todo => ⟨done, none, todo⟩
-  | some p, [] => ⟨done ++ [p], none, []⟩
+def drainFrom (dec : Bool) (done : List Proc) : Option Proc → List Proc → Lane
+  | none, todo => ⟨done, none, todo, dec⟩
+  | some p, [] => ⟨done ++ [p], none, [], dec⟩
   | some p, q :: qs =>
-    if p.code ≠ 0 then ⟨done ++ [p], none, q :: qs⟩
+    if p.halts dec then ⟨done ++ [p], none, q :: qs, dec⟩
     else match q.spawn with
-      | some _ => ⟨done ++ [p] ++ [q], none, qs⟩
-      | none => drainFrom (done ++ [p]) (some q) qs
+      | some _ => ⟨done ++ [p] ++ [q], none, qs, dec⟩
+      | none => drainFrom dec (done ++ [p]) (some q) qs
 
-def Lane.drain (l : Lane) : Lane := drainFrom l.done l.cur l.todo
+def Lane.drain (l : Lane) : Lane := drainFrom l.dec l.done l.cur l.todo
 
-def drainEventsFrom : Option Proc → List Proc → List Event
+def drainEventsFrom (dec : Bool) : Option Proc → List Proc → List Event
   | none, _ => []
   | some p, [] => [.fin p.id]
   | some p, q :: qs =>
-    if p.code ≠ 0 then [.fin p.id]
+    if p.halts dec then [.fin p.id]
     else match q.spawn with
       | some _ => [.fin p.id]
-      | none => .fin p.id :: .start q.id :: drainEventsFrom (some q) qs
+      | none => .fin p.id :: .start q.id :: drainEventsFrom dec (some q) qs
 
-def Lane.drainEvents (l : Lane) : List Event := drainEventsFrom l.cur l.todo
+def Lane.drainEvents (l : Lane) : List Event := drainEventsFrom l.dec l.cur l.todo
+
+/-- A lane as declared: its instructions and the settings of the command it belongs to. -/
+structure ALane where
+  procs : List Proc
+  save  : Bool
+  text  : Bool
+  deriving Repr, DecidableEq, Inhabited
+
+def ALane.dec (l : ALane) : Bool := l.save && l.text
 
 /-- The lanes of one entry / one command / the whole step, in declaration order. -/
 def Entry.procs : Entry → List Proc
@@ -324,9 +517,16 @@ def ARun.lanes : ARun → List (List Proc)
   | .single p => [[p]]
   | .many es => es.map Entry.procs
 
-def lanesOf : List ACommand → List (List Proc)
+/-- `Command.run`: when `with self.output_handles()` raises, the exception is appended to the command's
+    results — **none of its instructions is started**. -/
+def ACommand.lanes (c : ACommand) : List ALane :=
+  match c.redir.openError with
+  | some _ => []
+  | none => c.run.lanes.map (fun ps => ⟨ps, c.save, c.text⟩)
+
+def lanesOf : List ACommand → List ALane
   | [] => []
-  | c :: cs => c.run.lanes ++ lanesOf cs
+  | c :: cs => c.lanes ++ lanesOf cs
 
 /-- `List.modify`-like update at an index (results are *stored by index*: this is what
     `asyncio.gather` does with each task's outcome). -/
@@ -356,21 +556,22 @@ def drainAllEvents : List Lane → List Event
   | [] => []
   | l :: ls => l.drainEvents ++ drainAllEvents ls
 
-def startEvents : List (List Proc) → List Event
+def startEvents : List ALane → List Event
   | [] => []
-  | ps :: ls => launchEvents ps ++ startEvents ls
+  | l :: ls => launchEvents l.procs ++ startEvents ls
 
 /-- What the coroutine of an instruction leaves behind: a `SubprocessResult`, or the exception
-    raised when it could not be started. -/
+    raised when it could not be started / its output could not be decoded / the output handles of its
+    command could not be opened. -/
 inductive Item where
   | res (r : Result)
-  | exc (id : Nat) (kind : SpawnKind)
+  | exc (e : CmdErr)
   deriving Repr, DecidableEq, Inhabited
 
 def mkItem (save text : Bool) (p : Proc) : Item :=
   match p.spawn with
-  | some k => .exc p.id k
-  | none => .res (mkResultAsync save text p)
+  | some k => .exc (.spawn p.id k)
+  | none => if save && text && p.decodeFails then .exc (.decode p.id) else .res (mkResultAsync save text p)
 
 /-- A slot of `Command._results`: one item, or the list a serial sub-list returns. -/
 inductive Slot where
@@ -391,14 +592,17 @@ def entrySlots (save text : Bool) : List Entry → List Lane → List Slot × Li
     (Slot.sub (l.done.map (mkItem save text)) :: r.1, r.2)
 
 def commandSlots (c : ACommand) (ls : List Lane) : List Slot × List Lane :=
-  match c.run with
-  | .single p => entrySlots c.save c.text [.one p] ls
-  | .many es => entrySlots c.save c.text es ls
+  match c.redir.openError with
+  | some e => ([.one (.exc e)], ls)
+  | none =>
+    match c.run with
+    | .single p => entrySlots c.save c.text [.one p] ls
+    | .many es => entrySlots c.save c.text es ls
 
 /-- `_parse_result` on one item: an exception is yielded as it is, a result yields a
     `SubprocessError` when `returncode` is truthy (non-zero). -/
 def itemErrors : Item → List CmdErr
-  | .exc i k => [.spawn i k]
+  | .exc e => [e]
   | .res r => if r.code ≠ 0 then [.exit r.id r.code] else []
 
 /-- `Command.parse_results` / `_parse_result`: flattened errors, in the order of the slots. -/
@@ -430,7 +634,7 @@ def laneStarted (l : Lane) : List Nat :=
 
 /-- `AsyncCmdStep.run_step` under the given completion schedule. -/
 def runAsync (cs : List ACommand) (sched : List Nat) : AsyncObs :=
-  let ls0 := (lanesOf cs).map Lane.start
+  let ls0 := (lanesOf cs).map (fun l => Lane.start l.dec l.procs)
   let r := runSched ls0 sched
   let fin := drainAll r.1
   let c := collect cs fin
@@ -441,7 +645,322 @@ def runAsync (cs : List ACommand) (sched : List Nat) : AsyncObs :=
     running := (fin.filterMap (·.cur)).map (·.id) }
 
 /-- The schedule-free specification of the final state of a lane. -/
-def finalLane (ps : List Proc) : Lane :=
-  ⟨takeThrough ps, none, ps.drop (takeThrough ps).length⟩
+def finalLane (dec : Bool) (ps : List Proc) : Lane :=
+  ⟨takeThrough dec ps, none, ps.drop (takeThrough dec ps).length, dec⟩
+
+/-- The command (its handles) and the instruction behind a process id. -/
+def writerOf : List ACommand → Nat → Option (Redirect × Proc)
+  | [], _ => none
+  | c :: cs, i =>
+    match (c.lanes.flatMap (·.procs)).find? (·.id = i) with
+    | some p => some (c.redir, p)
+    | none => writerOf cs i
+
+/-- The files once the concurrent step is over: every command's coroutine opens its handles before
+    any process has run (declaration order); each process writes when it runs to its end, i.e. in the
+    order of the `fin` events of the trace. (Process ids are assumed distinct.) -/
+def filesAsync (cs : List ACommand) (trace : List Event) (fs : Fs) : Fs :=
+  trace.foldl (fun f ev => match ev with
+      | .fin i => (match writerOf cs i with
+        | some (r, p) => r.writeProc p f
+        | none => f)
+      | .start _ => f)
+    (cs.foldl (fun f c => c.redir.openFs f) fs)
+
+/-! ## 0. From the step's configuration to the commands
+
+`CmdStep.__init__` / `AsyncCmdStep.__init__` look at `context.get_formatted('cmd' | 'cmds')`; what they
+build is a list of `Command`s whose `cmd` still holds the *instruction strings*. `RawCommand` is that;
+`resolve` replaces every instruction string by its scripted outcome. -/
+
+/-- The settings of one `Command` object as the constructors compute them. -/
+structure Settings where
+  shell  : Bool
+  cwd    : Option String
+  save   : Bool
+  text   : Bool
+  enc    : Option String
+  stdout : Target
+  stderr : Target
+  append : Bool
+  deriving Repr, DecidableEq, Inhabited
+
+inductive RawEntry where
+  | one (s : String)
+  | sub (ss : List String)
+  deriving Repr, DecidableEq, Inhabited
+
+/-- `Command.cmd`: one instruction, or a list (serial step: of instructions; concurrent step: of
+    instructions and serial sub-lists). -/
+inductive RawRun where
+  | single (s : String)
+  | many (es : List RawEntry)
+  deriving Repr, DecidableEq, Inhabited
+
+structure RawCommand where
+  run : RawRun
+  set : Settings
+  deriving Repr, DecidableEq, Inhabited
+
+/-- `Command(cmd, is_shell=is_shell)`: everything else at its default. -/
+def simpleSettings (shell : Bool) : Settings :=
+  { shell := shell, cwd := none, save := false, text := false, enc := none,
+    stdout := .inherit, stderr := .inherit, append := false }
+
+def dget (kvs : List (Val × Val)) (k : String) : Option Val := dictGet? kvs (.str k)
+
+def truthyO : Option Val → Bool
+  | none => false
+  | some v => v.truthy
+
+/-- A list all of whose elements are `str`. -/
+def strs? : List Val → Option (List String)
+  | [] => some []
+  | .str s :: xs => (strs? xs).map (s :: ·)
+  | _ :: _ => none
+
+/-- `collections.abc.Sequence` that is not `str`/`bytes`: list or tuple. -/
+def seq? : Val → Option (List Val)
+  | .list xs => some xs
+  | .tuple xs => some xs
+  | _ => none
+
+/-- The elements of a `run:` list. A serial step runs each element with `shlex.split` — only `str`
+    elements are in the domain; a concurrent step also accepts a list/tuple of `str` (a serial
+    sub-list). `none`: outside the modelled domain (the code fails only when the element is run). -/
+def entries? (async : Bool) : List Val → Option (List RawEntry)
+  | [] => some []
+  | .str s :: xs => (entries? async xs).map (.one s :: ·)
+  | v :: xs =>
+    if async then
+      match seq? v with
+      | some ys =>
+        match strs? ys, entries? async xs with
+        | some ss, some es => some (.sub ss :: es)
+        | _, _ => none
+      | none => none
+    else none
+
+/-- The value of `run`. -/
+def runOf? (async : Bool) : Val → Option RawRun
+  | .str s => some (.single s)
+  | .list xs => (entries? async xs).map .many
+  | .tuple xs => (entries? async xs).map .many
+  | _ => none
+
+/-- `stdout:` / `stderr:` as `output_handles` reads it. -/
+def targetOf (isErr : Bool) : Option Val → Option Target
+  | none => some .inherit
+  | some v =>
+    if !v.truthy then some .inherit
+    else match v with
+      | .str s =>
+        if s = "/dev/null" then some .devnull
+        else if isErr && s = "/dev/stdout" then some .toStdout
+        else some (.file s)
+      | _ => none
+
+/-- `cwd:`: `None` or a string. -/
+def cwdOf : Option Val → Option (Option String)
+  | none => some none
+  | some .none => some none
+  | some (.str s) => some (some s)
+  | some _ => none
+
+/-- `encoding if encoding else config.default_cmd_encoding` (the latter `None` here). -/
+def encOf : Option Val → Option (Option String)
+  | none => some none
+  | some v =>
+    if !v.truthy then some none
+    else match v with
+      | .str s => some (some s)
+      | _ => none
+
+/-- `is_shell_override = cmd_input.get('shell', None)`; `self.is_shell if override is None else override`. -/
+def shellOf (dflt : Bool) : Option Val → Bool
+  | none => dflt
+  | some .none => dflt
+  | some v => v.truthy
+
+def excRunMissing : Exc := ⟨"KeyNotInContextError", "run-missing"⟩
+def excRunEmpty : Exc := ⟨"KeyInContextHasNoValueError", "run-empty"⟩
+def excSaveRedirect : Exc := ⟨"ContextError", "save-with-redirect"⟩
+def excBadItem : Exc := ⟨"ContextError", "bad-item"⟩
+def excBadConfig : Exc := ⟨"ContextError", "bad-config"⟩
+def excNoValue : Exc := ⟨"KeyInContextHasNoValueError", "config-none"⟩
+def excNoKey : Exc := ⟨"KeyNotInContextError", "config-missing"⟩
+
+/-- `create_command` followed by `Command.__init__` (both steps; the messages are abbreviated to a
+    tag). Outer `none`: the command can be constructed but is outside the modelled domain (a `run`
+    value / output path / cwd / encoding of a type the code only trips over when the command runs). -/
+def createCommand (async dflt : Bool) (kvs : List (Val × Val)) : Option (Except Exc RawCommand) :=
+  match dget kvs "run" with
+  | none => some (.error excRunMissing)
+  | some r =>
+    if !r.truthy then some (.error excRunEmpty)
+    else
+      let save := castToBool ((dget kvs "save").getD (.bool false))
+      let isBytes := truthyO (dget kvs "bytes")
+      let text := if save then !isBytes else false
+      if save && (truthyO (dget kvs "stdout") || truthyO (dget kvs "stderr")) then
+        some (.error excSaveRedirect)
+      else
+        match runOf? async r, targetOf false (dget kvs "stdout"), targetOf true (dget kvs "stderr"),
+              cwdOf (dget kvs "cwd"), encOf (dget kvs "encoding") with
+        | some run, some o, some e, some cwd, some enc =>
+          some (.ok ⟨run, { shell := shellOf dflt (dget kvs "shell"), cwd := cwd, save := save,
+                            text := text, enc := enc, stdout := o, stderr := e,
+                            append := truthyO (dget kvs "append") }⟩)
+        | _, _, _, _, _ => none
+
+/-- One element of a top-level list. -/
+def parseItem (async dflt : Bool) : Val → Option (Except Exc RawCommand)
+  | .str s => some (.ok ⟨.single s, simpleSettings dflt⟩)
+  | .dict kvs => createCommand async dflt kvs
+  | .list xs =>
+    if async then (strs? xs).map (fun ss => .ok ⟨.many [.sub ss], simpleSettings dflt⟩)
+    else some (.error excBadItem)
+  | .tuple xs =>
+    if async then (strs? xs).map (fun ss => .ok ⟨.many [.sub ss], simpleSettings dflt⟩)
+    else some (.error excBadItem)
+  | .bytes _ => none
+  | .sic _ => none
+  | .py _ => none
+  | .jsonify _ => none
+  | .obj _ => none
+  | _ => some (.error excBadItem)
+
+/-- `for cmd in cmd_config:` — the first item that raises ends the constructor. -/
+def parseItems (async dflt : Bool) : List Val → Option (Except Exc (List RawCommand))
+  | [] => some (.ok [])
+  | v :: vs =>
+    match parseItem async dflt v with
+    | none => none
+    | some (.error e) => some (.error e)
+    | some (.ok c) =>
+      match parseItems async dflt vs with
+      | none => none
+      | some (.error e) => some (.error e)
+      | some (.ok cs) => some (.ok (c :: cs))
+
+/-- `CmdStep.__init__` (`async = false`) / `AsyncCmdStep.__init__` (`async = true`) on the formatted
+    value of `context['cmd' | 'cmds']` (`none`: no such key); `dflt`: the step's `is_shell`. -/
+def parseCmdConfig (async dflt : Bool) : Option Val → Option (Except Exc (List RawCommand))
+  | none => some (.error excNoKey)
+  | some .none => some (.error excNoValue)
+  | some (.str s) => some (.ok [⟨.single s, simpleSettings dflt⟩])
+  | some (.dict kvs) =>
+    match createCommand async dflt kvs with
+    | none => none
+    | some (.error e) => some (.error e)
+    | some (.ok c) => some (.ok [c])
+  | some (.list xs) => parseItems async dflt xs
+  | some (.tuple xs) => parseItems async dflt xs
+  | some (.bytes _) => none
+  | some (.sic _) => none
+  | some (.py _) => none
+  | some (.jsonify _) => none
+  | some (.obj _) => none
+  | some _ => some (.error excBadConfig)
+
+/-- The instruction strings of a command, in declaration order. -/
+def RawEntry.strings : RawEntry → List String
+  | .one s => [s]
+  | .sub ss => ss
+
+def RawRun.strings : RawRun → List String
+  | .single s => [s]
+  | .many es => es.flatMap RawEntry.strings
+
+/-- All instruction strings of the step with the `save`/`text` of their command. -/
+def rawDecls (cs : List RawCommand) : List (String × Bool × Bool) :=
+  cs.flatMap (fun c => c.run.strings.map (fun s => (s, c.set.save, c.set.text)))
+
+/-! ### The short specification of the declaration order -/
+
+/-- The items of the configuration: itself, or the elements of the list. -/
+def specItems : Val → List Val
+  | .list xs => xs
+  | .tuple xs => xs
+  | v => [v]
+
+def strOf? : Val → Option String
+  | .str s => some s
+  | _ => none
+
+/-- The strings of one element of a `run:` list: itself, or the strings of the sub-list. -/
+def specInner : Val → List String
+  | .str s => [s]
+  | .list ys => ys.filterMap strOf?
+  | .tuple ys => ys.filterMap strOf?
+  | _ => []
+
+/-- All strings in a value of `run`, left to right, one level of nesting. -/
+def specStrings : Val → List String
+  | .str s => [s]
+  | .list xs => xs.flatMap specInner
+  | .tuple xs => xs.flatMap specInner
+  | _ => []
+
+/-- The instructions of one item with their `save` / `text`. -/
+def specItem : Val → List (String × Bool × Bool)
+  | .str s => [(s, false, false)]
+  | .dict kvs =>
+    let save := castToBool ((dget kvs "save").getD (.bool false))
+    let text := save && !truthyO (dget kvs "bytes")
+    (specStrings ((dget kvs "run").getD .none)).map (fun s => (s, save, text))
+  | .list xs => (xs.filterMap strOf?).map (fun s => (s, false, false))
+  | .tuple xs => (xs.filterMap strOf?).map (fun s => (s, false, false))
+  | _ => []
+
+/-- Declaration order, written directly on the configuration value. -/
+def flattenSpec (cfg : Val) : List (String × Bool × Bool) := (specItems cfg).flatMap specItem
+
+/-! ### Resolution: instruction strings ↦ scripted outcomes -/
+
+/-- What the world does with each instruction string and each output path. -/
+structure World where
+  proc    : String → Proc
+  openErr : String → Option OpenKind
+
+def World.redirect (w : World) (s : Settings) : Redirect :=
+  let eo := match s.stdout with
+    | .file p => (w.openErr p).map (fun k => (false, k))
+    | _ => none
+  let ee := match s.stderr with
+    | .file p => (w.openErr p).map (fun k => (true, k))
+    | _ => none
+  { stdout := s.stdout, stderr := s.stderr, append := s.append,
+    openErr := match eo with | some x => some x | none => ee }
+
+/-- A `Command` of the serial steps (sub-lists do not occur: `entries? false`). -/
+def RawCommand.toS (w : World) (c : RawCommand) : SCommand :=
+  { run := c.run.strings.map w.proc, save := c.set.save, text := c.set.text,
+    enc := c.set.enc.isSome, redir := w.redirect c.set }
+
+def RawEntry.toEntry (w : World) : RawEntry → Entry
+  | .one s => .one (w.proc s)
+  | .sub ss => .serial (ss.map w.proc)
+
+def RawCommand.toA (w : World) (c : RawCommand) : ACommand :=
+  { run := match c.run with
+      | .single s => .single (w.proc s)
+      | .many es => .many (es.map (RawEntry.toEntry w)),
+    save := c.set.save, text := c.set.text, redir := w.redirect c.set }
+
+/-- The serial step from its configuration. Outer `none`: outside the modelled domain;
+    `error`: the constructor raises — nothing is started, `cmdOut` is not touched. -/
+def runSerialCfg (dflt : Bool) (w : World) (cfg : Option Val) : Option (Except Exc SerialObs) :=
+  match parseCmdConfig false dflt cfg with
+  | none => none
+  | some (.error e) => some (.error e)
+  | some (.ok cs) => some (.ok (runSerial (cs.map (RawCommand.toS w))))
+
+def runAsyncCfg (dflt : Bool) (w : World) (cfg : Option Val) (sched : List Nat) :
+    Option (Except Exc AsyncObs) :=
+  match parseCmdConfig true dflt cfg with
+  | none => none
+  | some (.error e) => some (.error e)
+  | some (.ok cs) => some (.ok (runAsync (cs.map (RawCommand.toA w)) sched))
 
 end Pypyr.Cmd
